@@ -103,3 +103,21 @@ def replay_save(reg, key, witness):
 
 
 REPLAY[f"{JP}::save_calibrator_state"] = replay_save
+
+
+SQ = "black_it/utils/sqlite3_checkpointing.py"
+
+
+def replay_sqlite_save(reg, key, witness):
+    """The exception-safety obligation of the SQLite save: the solver's counter-model is a PATH (which statement fails),
+    so the replay enumerates the fault positions on the real function: after a failed save the previous checkpoint must
+    still load and be the previous one."""
+    from runtime import scopes_ckpt
+    for eff in ("user_version", "ddl", "delete", "insert", "commit"):
+        msg = scopes_ckpt._c06_sqlite({"mode": "fault", "effect": eff})
+        if msg and "did not fire" not in msg:
+            return f"fault injected at '{eff}': {msg}"
+    return None
+
+
+REPLAY[f"{SQ}::save_calibrator_state"] = replay_sqlite_save
